@@ -72,7 +72,27 @@ def gen(src, consts):
             raise ExtractError('_close_connection: unexpected statement %s' % ast.unparse(st)[:50])
     if sorted(seq) != ['reason', 'state'] or code_test != 'frame_in.reply_code != 200':
         raise ExtractError('_close_connection: shape changed: %r %r' % (seq, code_test))
+    # ---- Channel._basic_return: what is queued ----------------------------------------------------
+    r = src.func('channel.py', 'Channel', '_basic_return')
+    rtxt = ast.unparse(r)
+    if 'AMQPMessageError(message, reply_code=frame_in.reply_code)' not in rtxt or 'self.exceptions.append(exception)' not in rtxt:
+        raise ExtractError('_basic_return: does not append AMQPMessageError carrying the reply code')
+    if 'reply_code=frame_in.reply_code' not in ast.unparse(f):
+        raise ExtractError('_close_channel: reply code is not carried')
+    # ---- exception.py: AMQP_ERROR_MAPPING and how error_type/documentation are looked up ------------
+    mapping = src.const('exception.py', 'AMQP_ERROR_MAPPING')
+    if not isinstance(mapping, ast.Dict):
+        raise ExtractError('AMQP_ERROR_MAPPING is not a dict literal')
+    rows = []
+    for k, v in zip(mapping.keys, mapping.values):
+        if not (isinstance(k, ast.Constant) and isinstance(k.value, int) and isinstance(v, ast.Tuple) and len(v.elts) == 2):
+            raise ExtractError('AMQP_ERROR_MAPPING: unexpected entry %s' % ast.unparse(k))
+        name = ast.literal_eval(v.elts[0])
+        rows.append((k.value, name))
+    rows_txt = ', '.join('(%d, "%s")' % r for r in rows)
     return ('namespace Amqp.Gen.ChanErr\n'
+            '/-- exception.AMQP_ERROR_MAPPING: reply code ↦ error_type -/\n'
+            'def errorTypes : List (Nat × String) := [%s]\n' % rows_txt +
             '/-- `_close_channel` puts the broker\'s reason at the head of the channel\'s error list\n'
             '    (so that it is what every later operation raises) rather than behind queued errors -/\n'
             'def closeReasonAtFront : Bool := %s\n'
